@@ -8,8 +8,11 @@
    of the properties (C13, C14), not from the code.
 
    The model describes the code AFTER the repairs patches/C13/fix-F-C13c
-   (a wildcard match reports the wildcard node's own URL and parameters) and
-   fix-F-C13d (validateURL: wildcard only at the last index).
+   (a wildcard match reports the wildcard node's own URL and parameters),
+   fix-F-C13d (validateURL: wildcard only at the last index) and fix-F-C13g
+   (Lookup remembers a wildcard child only when its kind — host label / path
+   segment — is the kind of the first part it would stand for).  The code
+   before fix-F-C13g is the variant [walk_v false] (see [lookup_v]).
 
    Representation.  A trie is a finite map from step paths to node infos, so it
    is modelled flat: [tree V = list (key * ninfo V)], first binding wins.  A
@@ -306,10 +309,23 @@ Section Tree.
      parameters bound above it *)
   Definition wfound := option (key * str * params).
 
-  Definition note_wild (t : tree) (K : key) (path : str) (ps : params)
-             (fw : wfound) : wfound :=
+  (* [ck] = variant switch: true = the code after fix F-C13g, false = before.
+     [nxt] = kind of the request part about to be consumed at node [K]
+     (None = the URL ends at [K]).  With the fix a wildcard child is
+     remembered only when it is of the kind of that part: "a.com/*" (path
+     wildcard) is not remembered in front of a further host label, "a.*"
+     (host wildcard) not in front of a path segment; at the end of the URL
+     there is no part to compare with. *)
+  Definition note_wild (ck : bool) (t : tree) (K : key) (path : str) (ps : params)
+             (nxt : option bool) (fw : wfound) : wfound :=
     match find_node (KWild :: K) t with
-    | Some wi => Some (KWild :: K, path ++ delim (n_host wi) ++ star, ps)
+    | Some wi =>
+        if match nxt with
+           | Some k => negb ck || eqb (n_host wi) k
+           | None => true
+           end
+        then Some (KWild :: K, path ++ delim (n_host wi) ++ star, ps)
+        else fw
     | None => fw
     end.
 
@@ -319,26 +335,26 @@ Section Tree.
     | None => None
     end.
 
-  Fixpoint walk (t : tree) (K : key) (parts : list part) (fw : wfound)
+  Fixpoint walk_v (ck : bool) (t : tree) (K : key) (parts : list part) (fw : wfound)
            (ps : params) (path : str) : lres :=
     match parts with
     | [] =>
         match node_val t K with
         | Some _ => hit t K ps path
         | None =>
-            match note_wild t K path ps fw with
+            match note_wild ck t K path ps None fw with
             | Some (W, wpath, wps) => hit t W wps wpath
             | None => no_match
             end
         end
     | (k, s) :: rest =>
-        let fw' := note_wild t K path ps fw in
+        let fw' := note_wild ck t K path ps (Some k) fw in
         match child_ok t (KConst s :: K) k with
-        | Some _ => walk t (KConst s :: K) rest fw' ps (path ++ delim k ++ s)
+        | Some _ => walk_v ck t (KConst s :: K) rest fw' ps (path ++ delim k ++ s)
         | None =>
             match child_ok t (KParam :: K) k with
             | Some pi =>
-                walk t (KParam :: K) rest fw'
+                walk_v ck t (KParam :: K) rest fw'
                      (if is_brace s then ps else (n_pname pi, s) :: ps)
                      (path ++ delim k ++ [c_lbrace] ++ n_pname pi ++ [c_rbrace])
             | None =>
@@ -351,8 +367,15 @@ Section Tree.
         end
     end.
 
+  Definition lookup_parts_v (ck : bool) (t : tree) (parts : list part) : lres :=
+    walk_v ck t [] parts None [] [].
+
+  Definition lookup_v (ck : bool) (t : tree) (url : str) : lres :=
+    lookup_parts_v ck t (split_url url).
+
+  (* Lookup as repaired *)
   Definition lookup_parts (t : tree) (parts : list part) : lres :=
-    walk t [] parts None [] [].
+    lookup_parts_v true t parts.
 
   Definition lookup (t : tree) (url : str) : lres :=
     lookup_parts t (split_url url).
@@ -363,13 +386,26 @@ Arguments tree : clear implicits.
 Arguments lres : clear implicits.
 
 (* ------------------------------------------------------------------ *)
-(* Specification matcher, written from the property text:
+(* Specification matchers, written from the property text:
    a literal step matches the equal part of the same kind (host label / path
    segment); {param} matches exactly one part of the same kind; a trailing
-   wildcard matches everything that follows (also nothing: the registered
+   wildcard stands for everything that follows (also nothing: the registered
    HAProxy expression makes the rest optional, and a test of the repository
    expects the pattern twitter.com/user/[wildcard] to cover twitter.com/user).  A non-trailing wildcard
-   matches nothing (such a pattern is not a valid declaration). *)
+   matches nothing (such a pattern is not a valid declaration).
+
+   [matches_kind] is the reading of the property text: the wildcard is itself a
+   step of a kind — written as a path segment ("a.com/*") it stands for path
+   segments, so what follows must start with a path segment; written as a
+   host label ("a.*") it stands for further host labels (and whatever path
+   follows them), so what follows must start with a host label.  In a split
+   URL the host labels precede the path segments, hence for a path wildcard
+   "starts with a path segment" = "consists of path segments"
+   ([split_url_host_first]).  "a.com/*" does NOT match "a.com.evil.org/x".
+
+   [matches] is the lax reading (a trailing wildcard swallows parts of any
+   kind): what Lookup implemented before fix F-C13g and what lookupFlow still
+   implements (F-C03f).  [matches_kind] implies [matches]. *)
 Fixpoint matches (pat : pattern) (parts : list part) : bool :=
   match pat with
   | [] => is_nil parts
@@ -386,6 +422,27 @@ Fixpoint matches (pat : pattern) (parts : list part) : bool :=
       end
   end.
 
+Fixpoint matches_kind (pat : pattern) (parts : list part) : bool :=
+  match pat with
+  | [] => is_nil parts
+  | (k, PWild) :: pat' =>
+      is_nil pat' &&
+      match parts with
+      | [] => true
+      | (k', _) :: _ => eqb k k'
+      end
+  | (k, PConst s) :: pat' =>
+      match parts with
+      | (k', s') :: parts' => eqb k k' && str_eqb s s' && matches_kind pat' parts'
+      | [] => false
+      end
+  | (k, PParam _) :: pat' =>
+      match parts with
+      | (k', _) :: parts' => eqb k k' && matches_kind pat' parts'
+      | [] => false
+      end
+  end.
+
 (* the request's parts at the parameter positions of the pattern, as
    (parameter name, part) pairs, last position first *)
 Fixpoint params_at (pat : pattern) (parts : list part) (acc : list (str * str))
@@ -395,6 +452,43 @@ Fixpoint params_at (pat : pattern) (parts : list part) (acc : list (str * str))
   | (_, PConst _) :: pat', _ :: parts' => params_at pat' parts' acc
   | _, _ => acc
   end.
+
+(* What Lookup reports for ALL requests: a request part spelled "{..}" is
+   taken for a parameter reference (TryExtractPathParameter), it passes a
+   parameter step but binds nothing.  Equal to [params_at] when no request
+   part has that form ([params_at_nb_nobrace]). *)
+Fixpoint params_at_nb (pat : pattern) (parts : list part) (acc : list (str * str))
+  : list (str * str) :=
+  match pat, parts with
+  | (_, PParam n) :: pat', (_, s) :: parts' =>
+      params_at_nb pat' parts' (if is_brace s then acc else (n, s) :: acc)
+  | (_, PConst _) :: pat', _ :: parts' => params_at_nb pat' parts' acc
+  | _, _ => acc
+  end.
+
+(* Specificity order of the property text ("literal over path parameter over
+   wildcard"), on the step paths of two patterns that match the same request,
+   compared left to right at the first step where they differ; a pattern that
+   has ended (it matches the request exactly) is above one that continues
+   with a wildcard there.  [spec_leb p q] = q is at least as specific as p.
+   Every other combination (two different literals, a pattern ending where
+   the other continues with a literal / parameter: the two cannot match one
+   request) is answered false. *)
+Definition srank (s : skey) : nat :=
+  match s with KConst _ => 3 | KParam => 2 | KWild => 1 end.
+
+Fixpoint spec_leb (p q : list skey) : bool :=
+  match p, q with
+  | [], [] => true
+  | x :: p', y :: q' =>
+      if skey_eqb x y then spec_leb p' q' else Nat.ltb (srank x) (srank y)
+  | x :: _, [] => skey_eqb x KWild
+  | [], _ :: _ => false
+  end.
+
+(* the step path of a pattern, root first *)
+Definition steps_of (pat : pattern) : list skey :=
+  map (fun p => skey_of (snd p)) pat.
 
 (* Two declared patterns agree on the kind (host label / path segment) of
    every step along their common node path.  The insertion does not compare
